@@ -115,6 +115,9 @@ def run_one(exe, d, cf, seed):
         p = rhdparams.rhd_param(d, ncell=(16, 8, 8) if cf.get("aniso") else (8, 8, 8), nsub=(2, 2, 2), periodic=per, total_time=1.0e-3,
                                 radiation=rad, nphoton=2000, niter=2, seed=seed, dump_every_step=cf["mode"] == "restart",
                                 diffuse=0.4 if cf.get("rdiff") == 1 else None,
+                                # a diffuse field only matters when packets are absorbed: opaque, neutral gas for these runs
+                                **(dict(sigma_h="3.e-6 m^2", alpha_h="1.e12 m^3 s^-1", luminosity=1.e20, xh=1.0, nbuffers=4000, ntasks=40000)
+                                   if cf.get("rdiff") and not cf.get("sn") else {}),
                                 max_backups=cf["maxb"], extra=extra + ("  diffuse field: true\n" if cf.get("rdiff") == 2 else "") + blocks + ("  do stellar feedback: true\n" if cf.get("sn") else ""),
                                 source_block=("PhotonSourceDistribution:\n  type: SingleSupernova\n  position: [0.4 m, 0.6 m, 0.55 m]\n"
                                               "  lifetime: 1.e-12 s\n  luminosity: 1.e46 s^-1\n  energy: 1.e-9 J\n") if cf.get("sn") else None)
